@@ -123,6 +123,52 @@ func (db *DB) VerifWaitIdle() error {
 	return nil
 }
 
+// verifTrigger sends a compaction command and waits for its acknowledgement
+// without looking at the compaction error state (so it also works after
+// SetReadOnly on a live DB, whose compaction goroutines keep running).
+func (db *DB) verifTrigger(compC chan<- cCmd) error {
+	ch := make(chan error)
+	defer close(ch)
+	select {
+	case compC <- cAuto{ch}:
+	case <-db.closeC:
+		return ErrClosed
+	}
+	select {
+	case err := <-ch:
+		return err
+	case <-db.closeC:
+		return ErrClosed
+	}
+}
+
+// VerifWaitIdleRO is VerifWaitIdle for a live DB that was switched to
+// read-only with SetReadOnly: it waits until in-flight background work has
+// drained. It must not be used on a DB opened read-only (no compaction
+// goroutines exist there).
+func (db *DB) VerifWaitIdleRO() error {
+	for i := 0; i < 1000; i++ {
+		if err := db.verifTrigger(db.mcompCmdC); err != nil {
+			return err
+		}
+		if err := db.verifTrigger(db.tcompCmdC); err != nil {
+			return err
+		}
+		if err := db.verifTrigger(db.tcompCmdC); err != nil {
+			return err
+		}
+		if db.getFrozenMemNil() && !db.tableNeedCompaction() {
+			break
+		}
+	}
+	if err := db.verifTrigger(db.tcompCmdC); err != nil {
+		return err
+	}
+	db.VerifFileRefs()
+	db.VerifFileRefs()
+	return nil
+}
+
 func (db *DB) getFrozenMemNil() bool {
 	db.memMu.RLock()
 	defer db.memMu.RUnlock()
